@@ -844,7 +844,7 @@ func runHist13(h *Hist13, x *evalCtx) hist13Result {
 								panic(rr)
 							}
 						}()
-						e := buildEngine(EngineSpec{pickBackend(r), true, 0}, x.recFn)
+						e := buildEngine(EngineSpec{pickBackend(r), true, 0, false}, x.recFn)
 						if c, err := e.Compile(p.Src, envMakers[p.Env]()); err == nil && j%2 == 0 {
 							c(envMakers[p.Env]())
 						}
@@ -951,9 +951,10 @@ func genHist13(r *rng) *Hist13 {
 	h := &Hist13{}
 	ne := 1 + r.intn(3)
 	for i := 0; i < ne; i++ {
-		spec := EngineSpec{pickBackend(r), r.chance(0.6), 0}
+		spec := EngineSpec{pickBackend(r), r.chance(0.6), 0, false}
 		if spec.UserFuns {
 			spec.Tag = 1000 * (i + 1) // same name, another function on every engine
+			spec.Late = r.chance(0.35)
 		}
 		h.Engines = append(h.Engines, spec)
 	}
